@@ -180,7 +180,7 @@ def _before0(ex, x):
   x.path.assume(h2)
 
 
-c.loop(0, [Clause('no_marker_among_processed_varargs', lambda x, k: sym.forall(
+c.loop(('args[len(arg_names):]', None), [Clause('no_marker_among_processed_varargs', lambda x, k: sym.forall(
     [i_], z3.Implies(z3.And(P(x).len <= i_, i_ < P(x).len + k),
                      x.a.args.arr[i_] != REQ)))], before=_before0)
 
@@ -215,7 +215,7 @@ def _after1(ex, x):
   x.path.assume(lem)
 
 
-c.loop(1, [Clause('collected_marker_positions', _inv1)], ghost=['pos'],
+c.loop(('enumerate(args[:len(arg_names)])', None), [Clause('collected_marker_positions', _inv1)], ghost=['pos'],
        ghost_step=_step1, after=_after1)
 
 
@@ -248,7 +248,7 @@ def _after2(ex, x):
   x.path.assume(lem)
 
 
-c.loop(2, [Clause('collected_keyword_markers', _inv2)], ghost=['cpos'],
+c.loop(('kwargs.items()', None), [Clause('collected_keyword_markers', _inv2)], ghost=['cpos'],
        ghost_step=_step2, after=_after2)
 
 
@@ -272,8 +272,8 @@ def _inv4(x, k):
       patterns=[nk.dom[s_]])
 
 
-c.loop(3, [Clause('positional_names_dropped_from_bindings', _inv3)])
-c.loop(4, [Clause('keyword_names_dropped_from_bindings', _inv4)])
+c.loop(('arg_names', 'new_kwargs.pop'), [Clause('positional_names_dropped_from_bindings', _inv3)])
+c.loop(('kwargs', 'new_kwargs.pop'), [Clause('keyword_names_dropped_from_bindings', _inv4)])
 
 
 # -- loops 5/6: what is recorded as operative ---------------------------------------------
@@ -299,8 +299,8 @@ def _inv6(x, k):
       z3.Implies(o.dom[s_], o.val[s_] == opv_val(x, s_))), patterns=[o.dom[s_]])
 
 
-c.loop(5, [Clause('positional_names_dropped_from_operative', _inv5)])
-c.loop(6, [Clause('keyword_names_dropped_from_operative', _inv6)])
+c.loop(('arg_names', 'operative_parameter_values.pop'), [Clause('positional_names_dropped_from_operative', _inv5)])
+c.loop(('kwargs', 'operative_parameter_values.pop'), [Clause('keyword_names_dropped_from_operative', _inv6)])
 
 
 # C07: the operative record after the critical section
@@ -387,7 +387,7 @@ def _inv7d(x, k):
       P(x).len <= x.a.args.len)
 
 
-c.loop(7, [Clause('marker_lists_facts', _inv7d),
+c.loop(('zip(required_arg_indexes, required_arg_names)', None), [Clause('marker_lists_facts', _inv7d),
            Clause('markers_filled_in_position', _inv7a),
            Clause('filled_names_leave_the_keyword_dict', _inv7b),
            Clause('missing_list_tracks_unbound_markers', _inv7c)])
@@ -423,7 +423,7 @@ def _inv8(x, k):
                                       z3.Not(_sig_missing(x, srk.arr[t_]))))))
 
 
-c.loop(8, [Clause('signature_required_checked', _inv8)])
+c.loop(('signature_required_kwargs', None), [Clause('signature_required_checked', _inv8)])
 
 
 # -- loop 9: keyword markers -----------------------------------------------------------------
@@ -445,7 +445,7 @@ def _inv9(x, k):
           sym.forall([s_], z3.Implies(z3.And(kwreq(x, s_), cpos[s_] < k), B(x).dom[s_]))))
 
 
-c.loop(9, [Clause('keyword_markers_checked', _inv9)])
+c.loop(('caller_required_kwargs', None), [Clause('keyword_markers_checked', _inv9)])
 
 
 # ---- the property-level clauses, at the CALL event ---------------------------------------------
